@@ -417,7 +417,12 @@ class Connection(object):
             self._recvlock.release()
             with self._recv_event:
                 self._recv_event.notify_all()
-        self._dispatch(data)
+        try:
+            self._dispatch(data)
+        except EOFError:
+            # the transport failed while the response (or a nested request) was being written
+            self.close()
+            raise
         return True
 
     def poll(self, timeout=0):  # serving
